@@ -18,8 +18,12 @@ PARTIAL = {}
 ASSUMPTIONS = ["dataset identity classes (which datasets ought to be equal) are assigned by the harness from how each was built"]
 
 
-def exact(v) -> Fraction:
+def exact(v, hp=False) -> Fraction:
     if hasattr(v, "is_Rational"):
+        if hp and getattr(v, "is_Float", False):
+            import sympy
+            q = sympy.Rational(v)            # the exact binary value of the Float
+            return Fraction(int(q.p), int(q.q))
         if not v.is_Rational:
             raise ValueError("non-rational")
         return Fraction(int(v.p), int(v.q))
@@ -86,7 +90,10 @@ def correspondence(rep, ctx):
         h = 1
         for inv, dsid in invs:
             try:
-                items = [(str(k), exact(v)) for k, v in inv.contents.items()]
+                # the high-precision class stores exact amounts: a SymPy Float left in its contents still DENOTES a rational
+                # (its binary value), so the inventory stays in the pool and must equal the same specification given as
+                # int / float / Rational; only genuinely irrational stored amounts are left out
+                items = [(str(k), exact(v, hp=type(inv) is rd.InventoryHP)) for k, v in inv.contents.items()]
             except ValueError:
                 continue
             enc = ";".join(f"{hexs(n)}:{q.numerator}/{q.denominator}" for n, q in items) or "-"
